@@ -120,7 +120,9 @@ var errLog bytes.Buffer
 // ReadFaultSpec: which read fails
 type ReadFaultSpec struct {
 	Suffix string `json:"suffix"`
+	Match  string `json:"match,omitempty"` // (stat faults) substring of the path instead of a suffix
 	Nth    int    `json:"nth"`
+	Count  int    `json:"count,omitempty"` // (stat faults) that many consecutive matching looks fail (default 1)
 }
 
 type runner struct {
@@ -396,7 +398,7 @@ func runWorkflowJob(job *Job, res *Result) {
 		res.Scenario += fmt.Sprintf("/fault=%s:%s:%s", job.Fault.Proc, job.Fault.Match, job.Fault.Kind)
 	}
 	if job.StatFault != nil {
-		res.Scenario += fmt.Sprintf("/stat-fault=%s:%d", job.StatFault.Suffix, job.StatFault.Nth)
+		res.Scenario += fmt.Sprintf("/stat-fault=%s%s:%d+%d", job.StatFault.Suffix, job.StatFault.Match, job.StatFault.Nth, job.StatFault.Count)
 	}
 	if job.Base == "" {
 		job.Base = fmt.Sprintf("/dev/shm/vw-%d", os.Getpid())
@@ -486,11 +488,15 @@ func runWorkflowJob(job *Job, res *Result) {
 	vs.StatFault = nil
 	if job.StatFault != nil {
 		vs.StatFault = func(p string) error {
-			if !strings.HasSuffix(p, job.StatFault.Suffix) || isTemp(normPath(p)) {
+			if !strings.HasSuffix(p, job.StatFault.Suffix) || !strings.Contains(normPath(p), job.StatFault.Match) || isTemp(normPath(p)) {
 				return nil
 			}
 			r.statCount++
-			if r.statCount == job.StatFault.Nth {
+			cnt := job.StatFault.Count
+			if cnt < 1 {
+				cnt = 1
+			}
+			if r.statCount >= job.StatFault.Nth && r.statCount < job.StatFault.Nth+cnt {
 				vs.Note("STATFAULT:" + normPath(p))
 				return &os.PathError{Op: "stat", Path: p, Err: syscall.ENOENT}
 			}
